@@ -2,6 +2,8 @@ import NodisVerif.Proofs.C08Others
 import NodisVerif.Proofs.C08Tie
 import NodisVerif.Proofs.C16Handlers
 import NodisVerif.Proofs.GateInv
+import NodisVerif.Proofs.GateProgExamples
+import NodisVerif.Proofs.GateProgGone
 /-
   C08 — MULTI/EXEC runs the queue exactly once, in order, isolated — or not at all.
 
@@ -440,5 +442,228 @@ end gate
 /- UNPROVED: nothing.  Out of the model's scope (said above, not a gap of the proofs): callers of the
    embedded API are not subject to the gate; disconnects are modelled as "the connection sends nothing
    more". -/
+
+/-! ### The CODE around the gate (Model/GateProg.lean: the closure of `Serve`, `execCommand`, `exec`, `multi`, `discard`,
+  `watchKey`, `unwatchAll`, `signalModifiedKey`, `Watch`, `UnWatch`, `blockingPop`'s `look`) as a program model.
+  The theorems above are about the protocol; these say that the program follows it, under every schedule of any
+  number of connections and embedded callers, and transfer the protocol theorems to the program. -/
+section gateprog
+open NodisVerif.Gate
+
+/-- For every schedule of any number of connections and embedded callers, the events the program emits at its
+    verifTrace sites are a run of the gate protocol, and the state the protocol reaches is the program's own
+    (`R`: same serving goroutines, same open transactions, the reported holders of execMu). -/
+theorem gateprog_refines_gate (sch : List (GateProg.Tid × GateProg.Choice)) :
+    ∃ gs, Gate.run {} (GateProg.run {} sch).2 = some gs ∧ GateProg.R (GateProg.run {} sch).1 gs :=
+  let ⟨gs, h, _, hr⟩ := GateProg.reach_inv sch; ⟨gs, h, hr⟩
+
+/-- the invariant of the program model holds in every reachable configuration -/
+theorem gateprog_invariant (sch : List (GateProg.Tid × GateProg.Choice)) : GateProg.Inv (GateProg.run {} sch).1 :=
+  let ⟨_, _, hi, _⟩ := GateProg.reach_inv sch; hi
+
+/-- `exec_gate_exclusive` for the program: while a goroutine has reported the exclusive side, no other goroutine
+    has reported any side. -/
+theorem gateprog_exec_gate_exclusive (sch : List (GateProg.Tid × GateProg.Choice)) (g : GateProg.Tid)
+    (hx : ((GateProg.run {} sch).1.loc g).held = some .x ∧ ((GateProg.run {} sch).1.loc g).rep = true)
+    (g' : GateProg.Tid) (h' : ((GateProg.run {} sch).1.loc g').held.isSome = true ∧ ((GateProg.run {} sch).1.loc g').rep = true) :
+    g' = g := by
+  obtain ⟨gs, h, _, hr⟩ := GateProg.reach_inv sch
+  have hX : gs.holdsX g = true := holdsX_iff.2 ((hr.2.2 g .x).2 hx)
+  have hal := exec_gate_exclusive _ gs h g hX
+  obtain ⟨m, hm⟩ := Option.isSome_iff_exists.1 h'.1
+  have := (hr.2.2 g' m).2 ⟨hm, h'.2⟩
+  rw [hal] at this
+  simp only [List.mem_singleton, Prod.mk.injEq] at this
+  exact this.1
+
+/-- … and directly on the mutex: a goroutine that holds execMu exclusively (reported or not yet) is its only holder. -/
+theorem gateprog_writer_alone (sch : List (GateProg.Tid × GateProg.Choice)) (g : GateProg.Tid)
+    (hx : ((GateProg.run {} sch).1.loc g).held = some .x) : (GateProg.run {} sch).1.sh.execMu = [(g, .x)] := by
+  have hi := gateprog_invariant sch
+  exact hi.xalone _ ((hi.mu g .x).2 hx) rfl
+
+/-- `exec_section_isolated_trace` for the program: from a configuration in which `g` is inside EXEC's section, in
+    every continuation of the schedule, as long as `g` does not report leaving, every keyspace step the program takes
+    is `g`'s own or an embedded caller's. -/
+theorem gateprog_exec_section_isolated_trace (pre seg : List (GateProg.Tid × GateProg.Choice)) (g : GateProg.Tid)
+    (hx : ((GateProg.run {} pre).1.loc g).held = some .x ∧ ((GateProg.run {} pre).1.loc g).rep = true)
+    (hn : Ev.gout g ∉ (GateProg.run (GateProg.run {} pre).1 seg).2) :
+    ∃ gs, Gate.run {} (GateProg.run {} pre).2 = some gs ∧
+      (Gate.run gs (GateProg.run (GateProg.run {} pre).1 seg).2).isSome = true ∧
+      SegOk g gs (GateProg.run (GateProg.run {} pre).1 seg).2 := by
+  obtain ⟨gs, h, hi, hr⟩ := GateProg.reach_inv pre
+  have hX : gs.holdsX g = true := holdsX_iff.2 ((hr.2.2 g .x).2 hx)
+  obtain ⟨gs', h', _, _⟩ := GateProg.sim_run seg _ gs hi hr
+  exact ⟨gs, h, by rw [h']; rfl, exec_section_isolated_trace _ _ gs h g hX hn⟩
+
+/-- the pcs of `exec` between its entry and its deferred reset -/
+def inExecHandler : GateProg.Pc → Bool
+  | .e1 | .e3 | .e4 | .e5 | .e6 | .ec1 | .ec2 | .edef => true
+  | _ => false
+
+/-- `watch_check_and_bodies_inside_section` for the program: at every pc of `exec` - the scan of the watch flags
+    (e3), its report (e4), the loop over the queued closures (e5, e6), the deferred commit and reset - the goroutine
+    holds execMu exclusively, has reported it, and is the only holder. -/
+theorem gateprog_watch_check_and_bodies_inside_section (sch : List (GateProg.Tid × GateProg.Choice)) (g : GateProg.Tid)
+    (hpc : inExecHandler ((GateProg.run {} sch).1.loc g).pc = true) :
+    ((GateProg.run {} sch).1.loc g).held = some .x ∧ ((GateProg.run {} sch).1.loc g).rep = true ∧
+    (GateProg.run {} sch).1.sh.execMu = [(g, .x)] := by
+  have hi := gateprog_invariant sch
+  have hok := hi.ok g
+  have hh : ((GateProg.run {} sch).1.loc g).held = some .x ∧ ((GateProg.run {} sch).1.loc g).rep = true := by
+    generalize (GateProg.run {} sch).1.loc g = l at *
+    generalize ((GateProg.run {} sch).1.sh.conn g).commit = cm at *
+    cases h : l.pc <;> simp [h, inExecHandler] at hpc <;>
+      simp_all [GateProg.ok, GateProg.frame, GateProg.cmdGate, GateProg.gateIs] <;>
+      (obtain ⟨⟨_, hg⟩, hc⟩ := hok; rw [hc] at hg; simpa using hg)
+  exact ⟨hh.1, hh.2, gateprog_writer_alone sch g hh.1⟩
+
+/-- the queued closures run inside the section too: a body run by EXEC's loop holds the exclusive side -/
+theorem gateprog_queued_bodies_inside_section (sch : List (GateProg.Tid × GateProg.Choice)) (g : GateProg.Tid)
+    (hctx : ((GateProg.run {} sch).1.loc g).ctx = .execLoop)
+    (hpc : ((GateProg.run {} sch).1.loc g).pc = .b1 ∨ ((GateProg.run {} sch).1.loc g).pc = .b2 ∨
+           ((GateProg.run {} sch).1.loc g).pc = .g2 ∨ ((GateProg.run {} sch).1.loc g).pc = .b3) :
+    (GateProg.run {} sch).1.sh.execMu = [(g, .x)] := by
+  have hi := gateprog_invariant sch
+  have hok := hi.ok g
+  apply gateprog_writer_alone sch g
+  generalize (GateProg.run {} sch).1.loc g = l at *
+  generalize ((GateProg.run {} sch).1.sh.conn g).commit = cm at *
+  rcases hpc with h | h | h | h <;> simp_all [GateProg.ok, GateProg.bodyOk, GateProg.gateIs]
+
+/-! Directly on the program model. -/
+
+/-- between two commands - when the closure's deferred calls have run: after a normal return, after an error reply,
+    after a recovered panic (all of them end in `dRec`, `flush`, `idle`) - and before the next command has chosen its
+    side (`sw`), the goroutine holds no side of execMu. -/
+def betweenCommands : GateProg.Pc → Bool
+  | .dRec | .flush | .idle | .sw => true
+  | _ => false
+
+/-- The gate taken by a command is released on every path. -/
+theorem gate_released_on_every_path (sch : List (GateProg.Tid × GateProg.Choice)) (g : GateProg.Tid)
+    (hpc : betweenCommands ((GateProg.run {} sch).1.loc g).pc = true) (m : GMode) :
+    (g, m) ∉ (GateProg.run {} sch).1.sh.execMu ∧ ((GateProg.run {} sch).1.loc g).held = none := by
+  have hi := gateprog_invariant sch
+  have hok := hi.ok g
+  have hh : ((GateProg.run {} sch).1.loc g).held = none := by
+    generalize (GateProg.run {} sch).1.loc g = l at *
+    generalize ((GateProg.run {} sch).1.sh.conn g).commit = cm at *
+    cases h : l.pc <;> simp [h, betweenCommands] at hpc <;> simp_all [GateProg.ok, GateProg.gateIs]
+  refine ⟨fun hm => ?_, hh⟩
+  have := (hi.mu g m).1 hm
+  rw [hh] at this; cases this
+
+/-- … and every way out of a handler leads there: the deferred calls of the closure (`dOut`, `dUnlock`, `dRec`) and the
+    flush report nothing but the release and go on to `idle`. -/
+theorem epilogue_reports_only_the_release {s : GateProg.Shared} {t : GateProg.Tid} {l : GateProg.Loc} {ch : GateProg.Choice}
+    {s' l' evs} (hpc : l.pc = .dOut ∨ l.pc = .dUnlock ∨ l.pc = .dRec ∨ l.pc = .flush)
+    (hs : GateProg.tstep s t l ch = some (s', l', evs)) :
+    (∀ e ∈ evs, e = Ev.gout t) ∧ s'.active = s.active ∧
+    (l'.pc = .dUnlock ∨ l'.pc = .dRec ∨ l'.pc = .flush ∨ l'.pc = .idle) :=
+  GateProg.epilogue_tstep hpc hs
+
+/-- … and they never block and need no choice of the scheduler: once a handler has returned (or panicked), the release
+    is four enabled transitions away. -/
+theorem epilogue_never_blocks (s : GateProg.Shared) (t : GateProg.Tid) (l : GateProg.Loc) (ch : GateProg.Choice)
+    (hpc : l.pc = .dOut ∨ l.pc = .dUnlock ∨ l.pc = .dRec ∨ l.pc = .flush) : (GateProg.tstep s t l ch).isSome = true :=
+  GateProg.epilogue_enabled s t l ch hpc
+
+/-- A command that is queued in MULTI takes no keyspace step before EXEC: `execCommand` on a queuing connection appends
+    the closure, reports nothing, touches neither execMu nor the transactions nor the watch registry, and returns into
+    the deferred calls (which report only the release: `epilogue_reports_only_the_release`). -/
+theorem queued_command_takes_no_keyspace_step {s : GateProg.Shared} {t : GateProg.Tid} {l : GateProg.Loc}
+    {ch : GateProg.Choice} {s' l' evs} (hpc : l.pc = .ec) (hq : (s.conn t).prep = true)
+    (hs : GateProg.tstep s t l ch = some (s', l', evs)) :
+    evs = [] ∧ (l'.pc = .dOut ∨ l'.pc = .dRec) ∧ (s'.conn t).queue = (s.conn t).queue ++ [GateProg.qcmdOf l.cmd] ∧
+    s'.active = s.active ∧ s'.execMu = s.execMu ∧ s'.registry = s.registry :=
+  GateProg.queued_tstep hpc hq hs
+
+/-- the pcs after the handler of the last command has returned -/
+def commandOver : GateProg.Pc → Bool
+  | .dOut | .dUnlock | .dRec | .flush | .idle => true
+  | _ => false
+
+/-- After EXEC / DISCARD the connection's state is MultiNone and its queue is empty on every path (EXEC without MULTI,
+    EXECABORT, the null reply, the empty transaction, bodies that panic, DISCARD): in every reachable configuration in
+    which the handler of EXEC / DISCARD has returned. -/
+theorem after_exec_discard_state_and_queue_clean (sch : List (GateProg.Tid × GateProg.Choice)) (g : GateProg.Tid)
+    (hc : GateProg.isExecOrDiscard ((GateProg.run {} sch).1.loc g).cmd = true)
+    (hpc : commandOver ((GateProg.run {} sch).1.loc g).pc = true) :
+    ((GateProg.run {} sch).1.sh.conn g).none? = true ∧ ((GateProg.run {} sch).1.sh.conn g).queue = [] := by
+  have hd := GateProg.reach_done sch g
+  generalize (GateProg.run {} sch).1.loc g = l at *
+  generalize (GateProg.run {} sch).1.sh.conn g = cs at *
+  cases h : l.pc <;> simp [h, commandOver] at hpc <;> simp_all [GateProg.doneOk]
+
+/-- The step itself: `unwatchAll` empties the connection's own watch map in its one critical section (pc u2), on the
+    way out of EXEC and DISCARD alike.  (This was the partial form; that the map stays empty in every later
+    configuration whatever the other goroutines signal is `after_exec_discard_clean` below, which rests on the
+    registry invariant `watch_registry_invariant`.) -/
+theorem after_exec_discard_watches_gone_partial {s : GateProg.Shared} {t : GateProg.Tid} {l : GateProg.Loc}
+    {ch : GateProg.Choice} {s' l' evs} (hpc : l.pc = .u2) (hs : GateProg.tstep s t l ch = some (s', l', evs)) :
+    (s'.conn t).watch = [] ∧ l'.pc = .u3 ∧ evs = [] := by
+  simp only [GateProg.tstep, hpc] at hs
+  injection hs with hs; injection hs with h1 h2; injection h2 with h2 h3
+  subst h1 h2 h3
+  simp
+
+/-- After EXEC / DISCARD the connection is clean on every path - State == MultiNone, no queued command, no watched
+    key - and it is in no key's watcher list, so that no later write of anybody can mark a future transaction of this
+    connection: in every reachable configuration in which the handler of EXEC / DISCARD has returned (until the next
+    command is read), under every schedule of the other goroutines.  (The full form of
+    `after_exec_discard_watches_gone_partial`: Proofs/GateProgWatch.lean proves the registry invariant.) -/
+theorem after_exec_discard_clean (sch : List (GateProg.Tid × GateProg.Choice)) (g : GateProg.Tid)
+    (hc : GateProg.isExecOrDiscard ((GateProg.run {} sch).1.loc g).cmd = true)
+    (hpc : commandOver ((GateProg.run {} sch).1.loc g).pc = true) :
+    ((GateProg.run {} sch).1.sh.conn g).clean = true ∧
+    ∀ k, g ∉ GateProg.regOf (GateProg.run {} sch).1.sh.registry k := by
+  obtain ⟨hsq, hq⟩ := after_exec_discard_state_and_queue_clean sch g hc hpc
+  have hg := GateProg.reach_gone sch
+  have hw : ((GateProg.run {} sch).1.sh.conn g).watch = [] := by
+    have := hg.g g
+    generalize (GateProg.run {} sch).1.loc g = l at *
+    generalize (GateProg.run {} sch).1.sh.conn g = cs at *
+    cases h : l.pc <;> simp [h, commandOver] at hpc <;> simp_all [GateProg.goneOk]
+  refine ⟨by simp [GateProg.ConnSt.clean, hsq, hq, hw], fun k hm => ?_⟩
+  have := hg.w.j1 k g hm
+  rw [hw] at this; cases this
+
+/-- the watch registry invariant in every reachable configuration: a connection is in a key's watcher list only if it
+    has a flag for the key, and no list has duplicates -/
+theorem watch_registry_invariant (sch : List (GateProg.Tid × GateProg.Choice)) :
+    GateProg.WInv (GateProg.run {} sch).1.sh := (GateProg.reach_gone sch).w
+
+open GateProg.Ex in
+example : ∃ gs, Gate.run {} (GateProg.run {} (schedToCheck ++ schedRest)).2 = some gs ∧ gs.holders = [] ∧ gs.clients = [1] :=
+  ⟨_, by rw [trace_exec]; rfl, rfl, rfl⟩
+open GateProg.Ex in
+example : ((GateProg.run {} schedToCheck).1.loc 1).held = some .x ∧ ((GateProg.run {} schedToCheck).1.loc 1).rep = true := by decide
+open GateProg.Ex in
+example : ((GateProg.run {} schedToCheck).1.loc 1).held = some .x ∧ ((GateProg.run {} schedToCheck).1.loc 1).rep = true ∧
+    Ev.gout 1 ∉ (GateProg.run (GateProg.run {} schedToCheck).1 schedSeg).2 ∧
+    (GateProg.run (GateProg.run {} schedToCheck).1 schedSeg).2 = [.chk 1, .run 1, .txb 1 3] := by decide
+open GateProg.Ex in
+example : inExecHandler ((GateProg.run {} schedToCheck).1.loc 1).pc = true := by decide
+open GateProg.Ex in
+example : betweenCommands ((GateProg.run {} schedAbort).1.loc 1).pc = true ∧
+    betweenCommands ((GateProg.run {} schedWatch).1.loc 1).pc = true := by decide
+open GateProg.Ex in
+example : GateProg.isExecOrDiscard ((GateProg.run {} schedWatch).1.loc 1).cmd = true ∧
+    commandOver ((GateProg.run {} schedWatch).1.loc 1).pc = true ∧ ((GateProg.run {} schedWatch).1.loc 1).noChange = false ∧
+    GateProg.isExecOrDiscard ((GateProg.run {} schedAbort).1.loc 1).cmd = true ∧
+    commandOver ((GateProg.run {} schedAbort).1.loc 1).pc = true ∧
+    GateProg.isExecOrDiscard ((GateProg.run {} schedDiscard).1.loc 1).cmd = true ∧
+    commandOver ((GateProg.run {} schedDiscard).1.loc 1).pc = true := by decide
+open GateProg.Ex in
+/-- `queued_command_takes_no_keyspace_step`: a SET arriving at execCommand on a connection that is queuing -/
+example : ((GateProg.run {} (simple 1 .multi ++ [(1, cmd (.plain 7)), (1, n), (1, n), (1, n)])).1.loc 1).pc = .ec ∧
+    ((GateProg.run {} (simple 1 .multi ++ [(1, cmd (.plain 7)), (1, n), (1, n), (1, n)])).1.sh.conn 1).prep = true := by decide
+open GateProg.Ex in
+/-- `gateprog_queued_bodies_inside_section`: the queued SET about to begin its transaction inside EXEC's loop -/
+example : ((GateProg.run {} (schedToCheck ++ schedRest.take 4)).1.loc 1).ctx = .execLoop ∧
+    ((GateProg.run {} (schedToCheck ++ schedRest.take 4)).1.loc 1).pc = .b1 := by decide
+
+end gateprog
 
 end NodisVerif.C08
